@@ -117,10 +117,20 @@ TApplyM ==
              /\ Explain(ev.fin = 1, <<l, "ApplyM", "fin", 1>>)
              /\ Explain(ev.res = 1, <<l, "ApplyM", "res", 1>>)
 
+(* noisy over-determined solves in two row orders, with (weighted = 1) or   *)
+(* without a measurement-error model: the minimiser is the same            *)
+TWSolve ==
+    LET ev == TraceLog[l]
+    IN /\ ev.e = "WSolve"
+       /\ KnownValueClass(ev)
+       /\ Explain(ev.ok1 = ev.ok2, <<l, "WSolve", "ok2", ev.ok1>>)
+       /\ Explain(RowOrderContract(ev.ok1, ev.ok2, ev.same),
+                  <<l, "WSolve", "sameUnderRowOrder", 1>>)
+
 TNext ==
     /\ l <= Len(TraceLog)
     /\ l' = l + 1
-    /\ (TMark \/ TConv \/ TApplyAB \/ TAddAB \/ TSolve \/ TApplyM)
+    /\ (TMark \/ TConv \/ TApplyAB \/ TAddAB \/ TSolve \/ TApplyM \/ TWSolve)
 
 TInit == l = 1
 TraceSpec == TInit /\ [][TNext]_l
